@@ -340,7 +340,7 @@ func c02run(d *c02desc) c02result {
 	case <-doneCh:
 	case <-time.After(30 * time.Second):
 		res.problem = "AddEventAndWait / AddEvent did not return within 30s"
-		res.probKey = "no-return"
+		res.probKey = "nontermination"
 	}
 	if res.problem == "" {
 		// cascades added without waiting: wait until handler fired and the trace is quiet
@@ -357,7 +357,7 @@ func c02run(d *c02desc) c02result {
 			}
 			if time.Now().After(deadline) {
 				res.problem = "cascade added with AddEvent did not finish within 30s"
-				res.probKey = "no-finish"
+				res.probKey = "nontermination"
 				break
 			}
 			time.Sleep(200 * time.Microsecond)
@@ -580,7 +580,7 @@ func c02ecal(c *Ctx, d *c02desc) {
 	c.Dist["ecal_runs"]++
 	switch {
 	case r.TimedOut:
-		c.Violate("no-return", "ECAL addEventAndWait did not return within 40s", d)
+		c.Violate("nontermination", "ECAL addEventAndWait did not return within 40s", d)
 		return
 	case r.Panicked:
 		c.Violate("assertion-panic", "ECAL run panicked: "+r.PanicMsg, d)
@@ -699,6 +699,8 @@ func c02one(c *Ctx, d *c02desc) {
 	}
 	if r.problem != "" {
 		c.Violate(r.probKey, r.problem, d)
+		c.Count(key, true, d)
+		return
 	}
 	nontrivial := false
 	for _, s := range d.Shapes {
